@@ -203,7 +203,7 @@ pub fn gen_zone(r: &mut StdRng, apex: &str, class: u16, children: &[&str], o: Zo
             }
         }
         // a long name with data
-        let long = format!("{}.{}.{}.{}", "x".repeat(60), "y".repeat(60), "z".repeat(50), apex);
+        let long = sub(&format!("{}.{}.{}", "x".repeat(60), "y".repeat(60), "z".repeat(50)));
         if long.len() < 250 {
             for i in 0..r.gen_range(1..12u8) { recs.push(Rec { owner: long.clone(), ty: 1, ttl: 5, rdata: if class == 3 { addr_rdata(r, 3) } else { vec![10, 9, 8, i] } }); }
         }
